@@ -169,7 +169,7 @@ func TestC17(t *testing.T) {
 	if r.Only < 0 {
 		smoke(t, r, dir)
 	}
-	r.Require("uploads_checked", "failed_uploads", "retries_after_failure", "idle_periods_checked", "cancellations_checked", "uploads_with_write_during_window", "timelines", "suppressed_uploads_without_change")
+	r.Require("uploads_checked", "failed_uploads", "retries_after_failure", "idle_periods_checked", "cancellations_checked", "uploads_with_write_during_window", "timelines", "suppressed_uploads_without_change", "uploads_hanging_past_the_limit")
 	r.Rule("seeded timelines of ~20 events over virtual hours: sleep d in {0,1s,30s,59s,60s,61s,5min,1h}, bursts of 1-3 real database writes (put/activate/delete), endpoint mode switches (ok / 403 not retryable / 500 retryable / hold for d with a write landing inside the held upload), then a quiet tail, an idle hour and cancellation at a random point of the minute cycle. Distinct = (endpoint mode at upload, writes during window?, outcome) and the smoke case through server.New")
 }
 
@@ -245,6 +245,7 @@ func timeline(t *testing.T, r *evid.Run, dir string, idx int) {
 			defer close(done)
 			server.VerifRunPeriodicBackup(ctx, kdb, client, "backup-bucket")
 		}()
+		var sideCancel chan struct{}
 		step := func(ev tevent) {
 			trace = append(trace, ev)
 			progress.Add(1)
@@ -257,6 +258,12 @@ func timeline(t *testing.T, r *evid.Run, dir string, idx int) {
 				}
 			case "mode":
 				ep.set(ev.Mode, ev.D)
+				// a write that was scheduled to land inside an earlier held upload is called off when the mode changes
+				if sideCancel != nil {
+					close(sideCancel)
+				}
+				sideCancel = make(chan struct{})
+				cancelThis := sideCancel
 				if ev.Mode == "hold" {
 					// a write lands while the held upload is in flight
 					ep.mu.Lock()
@@ -269,7 +276,12 @@ func timeline(t *testing.T, r *evid.Run, dir string, idx int) {
 								defer side.Done()
 								select {
 								case <-time.After(ev.D / 2):
-									write()
+									select {
+									case <-cancelThis:
+									default:
+										write()
+									}
+								case <-cancelThis:
 								case <-bubbleEnd:
 								}
 							}()
@@ -296,6 +308,10 @@ func timeline(t *testing.T, r *evid.Run, dir string, idx int) {
 				ev := tevent{Kind: "mode", Mode: m}
 				if m == "hold" {
 					ev.D = time.Duration(1+rng.IntN(200)) * time.Second
+					if rng.IntN(3) == 0 {
+						ev.D = time.Duration(6+rng.IntN(20)) * time.Minute // longer than the task allows one upload to take
+						r.Count("uploads_hanging_past_the_limit", 1)
+					}
 				}
 				step(ev)
 				modeAt[time.Since(t0)] = m
@@ -304,7 +320,9 @@ func timeline(t *testing.T, r *evid.Run, dir string, idx int) {
 		// writes and failures stop: within two minutes (plus SDK retry time) the newest backup equals the file
 		step(tevent{Kind: "mode", Mode: "ok"})
 		quietFrom := time.Since(t0)
-		step(tevent{Kind: "sleep", D: 5 * time.Minute})
+		// (an upload already in flight may hang until the task's own five-minute limit ends it; then comes the
+		// one-minute wait and the retry: twelve minutes cover that)
+		step(tevent{Kind: "sleep", D: 12 * time.Minute})
 		synctest.Wait()
 		cur, _ := os.ReadFile(path)
 		invs := invocations(ep.snapshot())
@@ -315,7 +333,7 @@ func timeline(t *testing.T, r *evid.Run, dir string, idx int) {
 			}
 		}
 		if newest == nil || !bytes.Equal(newest.Body, cur) {
-			fail("no-convergence", fmt.Sprintf("writes and upload failures stopped at %v; five minutes later the newest successful backup is not the current database file", quietFrom), map[string]any{"uploads": invs, "writes": writes})
+			fail("no-convergence", fmt.Sprintf("writes and upload failures stopped at %v; twelve minutes later the newest successful backup is not the current database file", quietFrom), map[string]any{"uploads": invs, "writes": writes})
 			cancel()
 			<-done
 			return
